@@ -21,6 +21,9 @@ open BeyondVerif.R BeyondVerif.R.KN BeyondVerif.NumReal BeyondVerif.KNIter Beyon
 
 /-! ## One object, many calls -/
 
+/-- the field an object integrates depends on its `bodies` only -/
+theorem field_def (c : Cfg) : c.field = fun t y => accel (c.bodies.map (bodyAt t)) y := rfl
+
 theorem runOps_length (c : Cfg) (ops : List Op) : (runOps c ops).length = ops.length := by
   induction ops generalizing c with
   | nil => rfl
@@ -66,16 +69,16 @@ bodies -/
 theorem current_method_selects_step (c : Cfg) (ops : List Op) (m : String) (tb : Tableau) (hm : butcher m = some tb)
     (y : List ℝ) (h : ℝ) :
     (runOps c (ops ++ [.setMethod m, .makeStep y h])).getLast? =
-      some (.stepped (makeStep (fun _ y => accel (c.after ops).bodies y) tb (c.after ops).step (c.after ops).tol 0 y maxIter h)) := by
+      some (.stepped (makeStep (c.after ops).field tb (c.after ops).step (c.after ops).tol 0 y maxIter h)) := by
   rw [runOps_append]
-  simp [runOps, Cfg.out, Cfg.next, hm]
+  simp [runOps, Cfg.out, Cfg.next, hm, field_def]
 
 /-- … and for a fixed-step method it is exactly one Runge–Kutta step of that tableau (Euler then RK4 on one object: the second
 call is an RK4 step) -/
 theorem current_method_selects_fixed_step (c : Cfg) (ops : List Op) (m : String) (tb : Tableau) (hm : butcher m = some tb)
     (hb : tb.bstar = none) (y : List ℝ) (h : ℝ) :
     (runOps c (ops ++ [.setMethod m, .makeStep y h])).getLast? =
-      some (.stepped (some (h, rkOnce (fun _ y => accel (c.after ops).bodies y) tb 0 y h))) := by
+      some (.stepped (some (h, rkOnce (c.after ops).field tb 0 y h))) := by
   rw [current_method_selects_step c ops m tb hm]
   simp [maxIter, makeStep, hb, rkOnce]
 
@@ -100,7 +103,7 @@ embedded error estimate within `t`, whatever the tolerance was when the object w
 theorem current_tol_bounds_accepted_step (c : Cfg) (ops : List Op) (t : ℝ) (tb : Tableau) (bs : List ℝ)
     (hm : butcher (c.after ops).method = some tb) (hb : tb.bstar = some bs) (y : List ℝ) (h h' : ℝ) (y' : List ℝ)
     (hr : (runOps c (ops ++ [.setTol t, .makeStep y h])).getLast? = some (.stepped (some (h', y')))) :
-    errEst tb bs h' (rkKs (fun _ y => accel (c.after ops).bodies y) tb 0 y h') ≤ t := by
+    errEst tb bs h' (rkKs (c.after ops).field tb 0 y h') ≤ t := by
   rw [runOps_append] at hr
   simp [runOps, Cfg.out, Cfg.next, hm] at hr
   exact accepts_within_tol' _ tb bs hb _ t 0 y maxIter h h' y' hr
@@ -134,7 +137,7 @@ def readsBinding : Op → Bool
 /-- every other reply is independent of what is bound -/
 theorem out_independent_of_binding (c : Cfg) (b : Option (String × List ℝ)) (op : Op) (h : readsBinding op = false) :
     ({ c with bound := b } : Cfg).out op = c.out op := by
-  cases op <;> simp_all [Cfg.out, readsBinding]
+  cases op <;> simp_all [Cfg.out, readsBinding, field_def]
 
 /-- a continuation from a returned orbit (`orb.propagate(T1).propagate(T2)`, a point of `iter()` propagated again) makes the
 same steps as the original propagator: method, step bound, tolerance, bodies and frame all survive `copy()` -/
@@ -159,9 +162,9 @@ whatever orbit (of whatever satellite, in whatever frame) the object was bound t
 theorem orbit_call_steps_from_current_view (c : Cfg) (ops : List Op) (views : List (String × List ℝ)) (y : List ℝ)
     (hv : viewIn (c.after ops).frame views = some y) (tb : Tableau) (hm : butcher (c.after ops).method = some tb) (h : ℝ) :
     (runOps c (ops ++ [.bind views, .stepBound h])).getLast? =
-      some (.stepped (makeStep (fun _ y => accel (c.after ops).bodies y) tb (c.after ops).step (c.after ops).tol 0 y maxIter h)) := by
+      some (.stepped (makeStep (c.after ops).field tb (c.after ops).step (c.after ops).tol 0 y maxIter h)) := by
   rw [runOps_append]
-  simp [runOps, Cfg.out, Cfg.next, hv, hm]
+  simp [runOps, Cfg.out, Cfg.next, hv, hm, field_def]
 
 /-- … hence two objects with different pasts (other satellites bound before, other frames) but the same attribute values now
 answer an `Orbit`-level call alike -/
@@ -527,7 +530,7 @@ example : runReqs (fun _ => 7) (fun _ => none) [.create 0, .propagate 1, .consum
 /-- Euler, then `prop.method = "rk4"`, then a step: an RK4 step -/
 example (c : Cfg) (y : List ℝ) (h : ℝ) :
     (runOps c [.makeStep y h, .setMethod "rk4", .makeStep y h]).getLast? =
-      some (.stepped (some (h, rkOnce (fun _ y => accel c.bodies y) butcher_rk4 0 y h))) := by
+      some (.stepped (some (h, rkOnce c.field butcher_rk4 0 y h))) := by
   have := current_method_selects_fixed_step c [.makeStep y h] "rk4" butcher_rk4 rfl rfl y h
   simpa [Cfg.after, Cfg.next] using this
 example : (Cfg.init 60 [] "RK4" 0.001).method = "rk4" := by decide
@@ -537,11 +540,11 @@ satellite in EME2000: the `Orbit`-level call integrates the TOD view of the call
 example (y yt other : List ℝ) (h : ℝ) :
     (runOps (Cfg.init 60 [] "rk4" 0.001) ([.bind [("EME2000", other)], .setFrame "TOD"]
         ++ [.bind [("EME2000", y), ("TOD", yt)], .stepBound h])).getLast? =
-      some (.stepped (makeStep (fun _ y => accel [] y) butcher_rk4 60 0.001 0 yt maxIter h)) := by
+      some (.stepped (makeStep (Cfg.init 60 [] "rk4" 0.001).field butcher_rk4 60 0.001 0 yt maxIter h)) := by
   have := orbit_call_steps_from_current_view (Cfg.init 60 [] "rk4" 0.001) [.bind [("EME2000", other)], .setFrame "TOD"]
     [("EME2000", y), ("TOD", yt)] yt (by simp [Cfg.after, Cfg.next, Cfg.init, viewIn]) butcher_rk4
     (by simp [Cfg.after, Cfg.next, Cfg.init, viewIn]; rfl) h
-  simpa [Cfg.after, Cfg.next, Cfg.init, viewIn] using this
+  simpa [Cfg.after, Cfg.next, Cfg.init, viewIn, field_def] using this
 /-- the stale stored orbit of a direct use: bound in EME2000, frame set to TOD, `prop.orbit` still the EME2000 state -/
 example (y : List ℝ) : (runOps (Cfg.init 60 [] "rk4" 0.001) [.bind [("EME2000", y)], .setFrame "TOD", .readOrbit]).getLast?
     = some (.orbit (some ("EME2000", y))) :=
